@@ -187,7 +187,7 @@ class SeqSystem:
         return st
 
     def events(self, st):
-        return SEQ_EVENTS
+        return self.menu if getattr(self, 'menu', None) else SEQ_EVENTS
 
     def canon(self, st):
         return (fmt_of(st.x), tuple(codes(st.x)), tuple(np.shape(st.x.val)))
@@ -215,8 +215,9 @@ def bounds(tier, seed):
                   'for source n_word in {2,3}' % (nws, len(fmt_grid(nws))),
             'E1_grid': 'boundary codes for (src,dst) n_word in {8,16,24,32,52} x n_frac in {0,mid,n} under deviation bound (default route resize, '
                        'default mode trunc/saturate; all routes x default mode, all modes x resize)',
-            'E2': 'BFS over sequences: %d roots, %d events (8 routes x %d formats x %d mode pairs), depth %d with dedup, depth %d without'
-                  % (len(SEQ_ROOTS), len(SEQ_EVENTS), len(SEQ_FORMATS), len(SEQ_MODES), 6 if tier != 'quick' else 4, 3 if tier != 'quick' else 2),
+            'E2': 'BFS over sequences: %d roots, %d events (8 routes x %d formats x %d mode pairs), depth %d with dedup; without dedup: depth 2 over the full menu%s'
+                  % (len(SEQ_ROOTS), len(SEQ_EVENTS), len(SEQ_FORMATS), len(SEQ_MODES), 8 if tier != 'quick' else 4,
+                     '' if tier == 'quick' else ' and depth 3 over a 32-event sub-menu'),
             'seed': seed}
 
 
@@ -228,7 +229,7 @@ def shards(tier, seed):
         out.append({'part': 'E1', 'nws': list(nws), 'si': si})
     for nw in (8, 16, 24, 32, 52):
         out.append({'part': 'G', 'nw': nw, 'seed': seed})
-    depth, depth_nd = (4, 2) if tier == 'quick' else (6, 3)
+    depth, depth_nd = (4, 2) if tier == 'quick' else (8, 3)
     for ri in range(len(SEQ_ROOTS)):
         if tier == 'quick':
             for mi in range(len(SEQ_MODES)):
@@ -237,7 +238,12 @@ def shards(tier, seed):
         else:
             # deep search: one explorer per root (sharding by first event would re-explore the same closure in every shard)
             out.insert(0, {'part': 'seq', 'root': ri, 'first': None, 'depth': depth, 'dedup': True})
-        out.append({'part': 'seq', 'root': ri, 'first': None, 'depth': depth_nd, 'dedup': False})
+        if tier == 'quick':
+            out.append({'part': 'seq', 'root': ri, 'first': None, 'depth': 2, 'dedup': False})
+        else:
+            # without dedup: full menu to depth 2, and a 32-event sub-menu (8 routes x 2 formats x 2 mode pairs) to depth 3
+            out.append({'part': 'seq', 'root': ri, 'first': None, 'depth': 2, 'dedup': False})
+            out.append({'part': 'seq', 'root': ri, 'first': None, 'depth': 3, 'dedup': False, 'submenu': True})
     return out
 
 
@@ -285,6 +291,8 @@ def run_shard(sh):
                                 judge(acc, src, dst, r, o, cs, (len(cs),), 'resize', 'G')
     else:
         system = SeqSystem(SEQ_ROOTS[sh['root']])
+        if sh.get('submenu'):
+            system.menu = [e for e in SEQ_EVENTS if e[1] in (0, 2) and e[2] in (0, 1)]
         roots = [()] if sh['first'] is None else [(e,) for e in SEQ_EVENTS if [e[2], e[1]] == list(sh['first'])]
         depth = sh['depth'] if sh['first'] is None else sh['depth'] - 1
         n, t, deep = bfs(system, acc, depth, dedup=sh['dedup'], roots=roots)
